@@ -2,9 +2,11 @@
 package c06
 
 import (
+	"bytes"
 	"context"
 	"encoding/json"
 	"net/http"
+	"strings"
 	"sync"
 
 	jsonrpc "github.com/filecoin-project/go-jsonrpc"
@@ -444,4 +446,47 @@ func HarnessManySubscriptions() {
 	stop()
 	verif.Quiesce()
 	verif.Reach("many-subscriptions-done")
+}
+
+// BH records whether the context each call was handed is live while the call runs.
+type BH struct {
+	mu   sync.Mutex
+	live map[int]bool
+}
+
+func (h *BH) Quick(a int) int { return a }
+func (h *BH) Peek(ctx context.Context, tag int) (int, error) {
+	h.mu.Lock()
+	h.live[tag] = ctx.Err() == nil
+	h.mu.Unlock()
+	return tag, nil
+}
+
+// HarnessBatchContexts: over HTTP (and HandleRequest) every element of a batch is
+// a call of its own: the context a handler sees is live while that handler runs,
+// whatever the elements before it did (returned, failed, were notifications), as
+// long as the request itself was not aborted.
+func HarnessBatchContexts() {
+	h := &BH{live: map[int]bool{}}
+	srv := jsonrpc.NewServer()
+	srv.Register("B", h)
+	firsts := []string{
+		`{"jsonrpc":"2.0","id":1,"method":"B.Quick","params":[1]}`,
+		`{"jsonrpc":"2.0","method":"B.Quick","params":[1]}`,
+		`{"jsonrpc":"2.0","id":1,"method":"B.Nope","params":[1]}`,
+		`{"jsonrpc":"2.0","id":1,"method":"B.Quick","params":[1,2]}`,
+		`{"jsonrpc":"2.0","id":1,"method":"B.Peek","params":[5]}`,
+	}
+	first := firsts[verif.Choice("first_element", len(firsts))]
+	body := "[" + first + `,{"jsonrpc":"2.0","id":2,"method":"B.Peek","params":[7]},{"jsonrpc":"2.0","id":3,"method":"B.Peek","params":[8]}]`
+	parent, cancel := context.WithCancel(context.Background())
+	defer cancel()
+	var out bytes.Buffer
+	srv.HandleRequest(parent, strings.NewReader(body), &out)
+	h.mu.Lock()
+	verif.Assert(h.live[7], "second-batch-element-sees-a-live-context")
+	verif.Assert(h.live[8], "third-batch-element-sees-a-live-context")
+	h.mu.Unlock()
+	verif.Assert(parent.Err() == nil, "callers-context-untouched")
+	verif.Reach("batch-contexts-done")
 }
